@@ -162,6 +162,7 @@ func c13Catalogue(maxChain int) []option {
 	add := func(label string, f func(inst int, typ string) ([]string, []gen.Plant)) {
 		owners = append(owners, owner{label, f})
 	}
+	hdrNames := []string{"X-H0", "x-rate-limit", "ETag"}
 	add("sharedParam", func(inst int, typ string) ([]string, []gen.Plant) {
 		p := []string{"parameters", "q" + strconv.Itoa(inst)}
 		return p, []gen.Plant{gen.P(gen.J{"name": "q", "in": "query", "type": typ}, p...)}
@@ -170,26 +171,37 @@ func c13Catalogue(maxChain int) []option {
 		p := []string{"paths", pt, "parameters", strconv.Itoa(inst)}
 		return p, []gen.Plant{gen.P(gen.J{"name": "q" + strconv.Itoa(inst), "in": "query", "type": typ}, p...)}
 	})
-	for _, m := range oracle.Methods7 {
+	for mi, m := range oracle.Methods7 {
 		m := m
 		add("opParam."+m, func(inst int, typ string) ([]string, []gen.Plant) {
 			p := []string{"paths", pt, m, "parameters", strconv.Itoa(inst)}
 			return p, []gen.Plant{gen.P(gen.J{"name": "q" + strconv.Itoa(inst), "in": "query", "type": typ}, p...),
 				gen.P(gen.J{"description": "ok"}, "paths", pt, m, "responses", "200")}
 		})
-		add("defaultHeader."+m, func(inst int, typ string) ([]string, []gen.Plant) {
-			p := []string{"paths", pt, m, "responses", "default", "headers", "X-H" + strconv.Itoa(inst)}
-			return p, []gen.Plant{gen.P(gen.J{"type": typ}, p...), gen.P(gen.J{"description": "d"}, p[:5]...)}
-		})
-		add("codeHeader."+m, func(inst int, typ string) ([]string, []gen.Plant) {
-			p := []string{"paths", pt, m, "responses", "200", "headers", "X-H" + strconv.Itoa(inst)}
-			return p, []gen.Plant{gen.P(gen.J{"type": typ}, p...), gen.P(gen.J{"description": "ok"}, p[:5]...)}
+		// header names: canonical and non-canonical spellings (all three under get, one per other method)
+		names := []string{hdrNames[mi%3]}
+		if m == "get" {
+			names = hdrNames
+		}
+		for _, hn := range names {
+			hn := hn
+			add("defaultHeader."+m+"."+hn, func(inst int, typ string) ([]string, []gen.Plant) {
+				p := []string{"paths", pt, m, "responses", "default", "headers", hn + strings.Repeat("x", inst)}
+				return p, []gen.Plant{gen.P(gen.J{"type": typ}, p...), gen.P(gen.J{"description": "d"}, p[:5]...)}
+			})
+			add("codeHeader."+m+"."+hn, func(inst int, typ string) ([]string, []gen.Plant) {
+				p := []string{"paths", pt, m, "responses", "200", "headers", hn + strings.Repeat("x", inst)}
+				return p, []gen.Plant{gen.P(gen.J{"type": typ}, p...), gen.P(gen.J{"description": "ok"}, p[:5]...)}
+			})
+		}
+	}
+	for _, hn := range hdrNames {
+		hn := hn
+		add("sharedHeader."+hn, func(inst int, typ string) ([]string, []gen.Plant) {
+			p := []string{"responses", "sr" + strconv.Itoa(inst), "headers", hn}
+			return p, []gen.Plant{gen.P(gen.J{"type": typ}, p...), gen.P(gen.J{"description": "d"}, p[:2]...)}
 		})
 	}
-	add("sharedHeader", func(inst int, typ string) ([]string, []gen.Plant) {
-		p := []string{"responses", "sr" + strconv.Itoa(inst), "headers", "X-H"}
-		return p, []gen.Plant{gen.P(gen.J{"type": typ}, p...), gen.P(gen.J{"description": "d"}, p[:2]...)}
-	})
 	payload := func(kw string, pi int) gen.J {
 		if kw == "pattern" {
 			return gen.J{"pattern": "^p" + strconv.Itoa(pi%7) + "$"}
